@@ -578,7 +578,7 @@ Lemma value_spec_quoted double quote E vsp f tsp cm trail :
   value_spec (VFlow vsp f tsp cm) trail.
 Proof.
   intros Hq Hwf Hcm Hp Hm. unfold value_spec. cbn [value_text value_meaning]. rewrite Hp, Hm.
-  exists quote, (print_els E ++ [quote] ++ sp tsp ++ print_comment cm ++ [10] ++ nls trail).
+  exists quote, (print_els E ++ [quote] ++ sp tsp ++ print_comment cm ++ [10] ++ bl trail).
   split; [cbn [app]; rewrite <- !app_assoc; reflexivity|].
   split; [destruct Hq as [[_ ->]|[_ ->]]; unfold stopc, lbc; repeat split; try discriminate; reflexivity|].
   intros s c0 t0 Hcol Hc0 Hr.
@@ -592,7 +592,7 @@ Proof.
   - unfold value_scan.
     replace (mem_N quote in_tokenize_1) with false by (destruct Hq as [[_ ->]|[_ ->]]; reflexivity).
     replace (mem_N quote in_tokenize_2) with true by (destruct Hq as [[_ ->]|[_ ->]]; reflexivity).
-    assert (HX : exists X TL, sp tsp ++ print_comment cm ++ [10] ++ nls trail ++ c0 :: t0 = X :: TL /\ X <> c_squote).
+    assert (HX : exists X TL, sp tsp ++ print_comment cm ++ [10] ++ bl trail ++ c0 :: t0 = X :: TL /\ X <> c_squote).
     { destruct tsp; [|rewrite sp_S]; cbn [sp repeat app].
       - destruct cm; cbn [print_comment app]; eexists; eexists; (split; [reflexivity | discriminate]).
       - eexists; eexists; (split; [reflexivity | discriminate]). }
